@@ -52,7 +52,7 @@ func ruleTypes(p *Program, c *Check) {
 			}
 			target := strings.TrimPrefix(n, specPrefix)
 			key := "type:" + pk.Types.Name() + "." + target
-			if !anchoredIn(c.Property, key) {
+			if !anchoredIn(c.Property, key) && !c.usedTypes[key] {
 				continue
 			}
 			c.Rule(rule, "the exported fields (name, type, struct tag) of every anchored struct type equal its reference declaration "+
@@ -83,6 +83,42 @@ func ruleTypes(p *Program, c *Check) {
 			}
 			sort.Strings(diffs)
 			c.Decide(len(diffs) == 0, rule, key, "fields", p.pos(obj.Pos()), strings.Join(diffs, "; "))
+			// custom codecs replace the field-by-field encoding altogether (also when promoted from an embedded field)
+			var codecs []string
+			for _, t := range []types.Type{obj.Type(), types.NewPointer(obj.Type())} {
+				ms := types.NewMethodSet(t)
+				for i := 0; i < ms.Len(); i++ {
+					switch m := ms.At(i).Obj().Name(); m {
+					case "MarshalJSON", "UnmarshalJSON", "MarshalText", "UnmarshalText":
+						codecs = append(codecs, m)
+					}
+				}
+			}
+			sort.Strings(codecs)
+			var wantCodecs []string
+			for _, t := range []types.Type{tn.Type(), types.NewPointer(tn.Type())} {
+				ms := types.NewMethodSet(t)
+				for i := 0; i < ms.Len(); i++ {
+					switch m := ms.At(i).Obj().Name(); m {
+					case "MarshalJSON", "UnmarshalJSON", "MarshalText", "UnmarshalText":
+						wantCodecs = append(wantCodecs, m)
+					}
+				}
+			}
+			sort.Strings(wantCodecs)
+			c.Decide(strings.Join(dedup(codecs), ",") == strings.Join(dedup(wantCodecs), ","), rule, key, "codec-methods", p.pos(obj.Pos()),
+				fmt.Sprintf("the type has the custom encoding methods [%s] (own or promoted from an embedded field), the reference declares [%s]: "+
+					"encoding/json then no longer writes the fields the reference describes", strings.Join(dedup(codecs), ","), strings.Join(dedup(wantCodecs), ",")))
 		}
 	}
+}
+
+func dedup(in []string) []string {
+	var out []string
+	for i, s := range in {
+		if i == 0 || s != in[i-1] {
+			out = append(out, s)
+		}
+	}
+	return out
 }
